@@ -44,7 +44,7 @@ def x_obligations(tier):
         o.append(Obl(f"C11-all[{s}]", M, "all_agree", env={"VF_SEARCH": s, "VF_EPRE": epre, "VF_ESUF": esuf, "VF_FIXED": fixed}, timeout=T, family="C11-all",
                      bound="FindInAll over constants + FindInPaths (glob stub)"))
     # the shipped data configuration's own routing (three constants-backed levels chained by parent_source)
-    for s in ["*/a/*", "*/*/*", "*/a/char"] if tier == "quick" else ["*/a/*", "*/*/*", "*/a/char", "hamlet/*/*", "*/*", "*/a/>", "hamlet/a/char/*"]:
+    for s in ["*/a/*", "*/*/*", "*/a/char"] if tier == "quick" else ["*/a/*", "*/*/*", "*/a/char", "hamlet/*/*", "*/*", "hamlet/a/char/*"]:
         o.append(Obl(f"C11-all[shipped,{s}]", M, "all_agree", env={"VF_CONF": "shipped", "VF_SEARCH": s, "VF_EPRE": "hamlet/a/char/", "VF_ESUF": "", "VF_FIXED": "hamlet/s/sq010",
                                                                   "VF_CONST_TYPES": "project,asset,shot,asset__assettype", "VF_CONST_SIDS": "hamlet,hamlet/a,hamlet/s,hamlet/a/char,hamlet/a/location,hamlet/a/prop,hamlet/a/fx"},
                      timeout=T, path_timeout=300, family="C11-all", bound="shipped spil_data_conf: FindInAll over its constants-backed levels + FindInPaths (glob stub); one asset with a symbolic one-character name"))
